@@ -445,6 +445,11 @@ class Counters(EngineBase):
                         ["cpu_percent"], ["cpu_percent", "cpu_percent"],
                         ["name", "cpu_percent", "name", "cpu_percent"],
                         ["cpu_percent", "pid"]])
+            if rng.random() < 0.15 and op["op"] != "cpu_times":
+                # the call is made from another (serialised) thread: the
+                # system-wide functions measure per calling thread, a
+                # Process object has ONE history whoever calls
+                op["thread"] = rng.choice([1, 2])
             if op["op"] in ("cpu_percent", "cpu_times_percent") and \
                     not (interval and interval > 0) and \
                     not (interval is not None and interval < 0) and \
@@ -552,6 +557,11 @@ class Counters(EngineBase):
             acc0 = len(k.acclog)
             t_start = k.mono
             pt_start = None
+            th = op.get("thread", 0)
+            if th not in k.ctxs:
+                from ..kernel import Ctx
+                k.ctxs[th] = Ctx(th)
+            k.cur_thread = th
             k.begin_op(idx)
             if op.get("fail"):
                 k.deny = {"/proc/stat": op["fail"]}
@@ -581,6 +591,7 @@ class Counters(EngineBase):
                     raise
                 out = ("exc", e)
             k.end_op()
+            k.cur_thread = 0
             if op.get("fail"):
                 k.deny = {}
                 if out[0] == "exc" and isinstance(out[1], OSError) and \
@@ -694,11 +705,11 @@ class Counters(EngineBase):
                 t1 = reads[0][2]
                 tags.append("blocking")
             else:
-                t1 = store.get(0)
+                t1 = store.get(th)
                 tags.append("nonblocking")
                 if t1 is None:
                     t1 = reads[0][2]
-            store[0] = t2
+            store[th] = t2
             rows = [(t1[c], t2[c]) for c in cpu_ids] if op["percpu"] else \
                 [(total_row(t1), total_row(t2))]
             vals = val if op["percpu"] else [val]
